@@ -118,5 +118,7 @@ static inline int QDataStream_writeFrom(QDataStream *s, const QByteArray *x, int
 #else
 #define QBA_NOT_WLOG(b) 1
 #endif
+/* a slice: its n bytes are bytes [off, off+n) of src (e.g. the transaction id read out of a packet) */
+#define QBA_SLICE(b, maxn) (0 <= (b)->n && (b)->n <= (maxn) && (b)->vlen == (b)->n && (b)->off >= 0 && (b)->off <= QBA_MAX && !(b)->patched && QBA_NOT_OWNED(b) && QBA_NOT_WLOG(b))
 #define QBA_PLAIN(b, maxn) (0 <= (b)->n && (b)->n <= (maxn) && (b)->vlen == (b)->n && (b)->off == 0 && !(b)->patched && QBA_NOT_OWNED(b) && QBA_NOT_WLOG(b))
 #endif
